@@ -90,6 +90,9 @@ def draw_case(rng, name, tier="quick", mixed_cls=False):
         items = [(Obj(ids.next(), rng.randrange(3)), Obj(ids.next(), rng.randrange(3))) for _ in range(n)]
         if rng.random() < 0.1 and items:
             items[rng.randrange(len(items))] = (Obj(ids.next(), 1),)
+        if rng.random() < 0.3 and items:      # a pair may be a list of two as well; other lengths fail
+            j = rng.randrange(len(items))
+            items[j] = list(items[j]) if rng.random() < 0.8 else [Obj(ids.next(), 1), Obj(ids.next(), 2), Obj(ids.next(), 0)]
         return Case(name, {}, [items])
     if name == "sorted":
         return Case(name, {"key": rng.choice(KEYS), "reverse": rng.random() < 0.5}, [L(mixed=mixed_cls)])
@@ -163,3 +166,41 @@ def small_exhaustive(name, maxlen=3, nkeys=2):
     for n in range(maxlen + 1):
         for keys in itertools.product(range(nkeys), repeat=n):
             yield [Obj(i + 1, k) for i, k in enumerate(keys)]
+
+
+def exhaustive_cases(name, maxlen=4, nkeys=3):
+    """Bounded-exhaustive small scope (thorough tier): every key vector up to maxlen over nkeys keys, for every
+    parameter choice of a small grid; multi-source tools: every pair of key vectors up to length 3 over 2 keys."""
+    def lists(ml, nk, base=0):
+        for n in range(ml + 1):
+            for keys in itertools.product(range(nk), repeat=n):
+                yield [Obj(base + i + 1, k) for i, k in enumerate(keys)]
+    single = {
+        "filter": [{"f": None}, {"f": ("TruthMod", 2, 0)}], "filterfalse": [{"f": None}, {"f": ("TruthMod", 2, 0)}],
+        "enumerate": [{"start": 0}], "all": [{}], "any": [{}],
+        "min": [{"key": None, "default": None}, {"key": ("KeyDiv", 2), "default": None}], "max": [{"key": None, "default": None}, {"key": ("KeyDiv", 2), "default": None}],
+        "sum": [{"start": 0}], "list": [{}], "tuple": [{}], "set": [{}], "sorted": [{"key": None, "reverse": r} for r in (False, True)] + [{"key": ("KeyDiv", 2), "reverse": r} for r in (False, True)],
+        "accumulate": [{"f": None, "initial": None}, {"f": ("MaxKey",), "initial": None}], "batched": [{"n": n, "strict": st} for n in (1, 2, 3) for st in (False, True)],
+        "dropwhile": [{"f": ("TruthMod", 2, 0)}], "takewhile": [{"f": ("TruthMod", 2, 0)}], "pairwise": [{}],
+        "islice": [{"args": a_} for a_ in [(0,), (2,), (None,), (1, 3), (2, 1), (0, None, 2), (1, 4, 2), (3, None), (5, 6)]],
+        "nlargest": [{"n": n, "key": k} for n in (0, 1, 2, 5) for k in (None, ("KeyDiv", 2))], "nsmallest": [{"n": n, "key": k} for n in (0, 1, 2, 5) for k in (None, ("KeyDiv", 2))],
+        "reduce": [{"f": ("MaxKey",), "initial": None}, {"f": ("Sum",), "initial": None}],
+    }
+    if name in single:
+        for params in single[name]:
+            for xs in lists(maxlen, nkeys):
+                yield Case(name, params, [xs])
+        return
+    multi = {
+        "zip": [{"n": 2, "strict": False}, {"n": 2, "strict": True}], "map": [{"n": 2, "f": ("Sum",)}], "compress": [{}],
+        "zip_longest": [{"n": 2, "fill": None}], "chain": [{"n": 2}],
+        "merge": [{"n": 2, "key": None, "reverse": r} for r in (False, True)] + [{"n": 2, "key": ("KeyDiv", 2), "reverse": r} for r in (False, True)],
+    }
+    if name in multi:
+        for params in multi[name]:
+            for xs in lists(3, 2):
+                for ys in lists(3, 2, base=10):
+                    if name == "merge":
+                        yield Case(name, params, [sorted_for_merge(xs, params["key"], params["reverse"]), sorted_for_merge(ys, params["key"], params["reverse"])])
+                    else:
+                        yield Case(name, params, [xs, ys])
